@@ -84,22 +84,22 @@ PROPS = {
         level_note=NOTE + "sequential histories.", technique=TECH),
     "C17": dict(
         lean="BR.Props.C17", runs=[LRU, DISK, HARDLAG, SRVHARD, SRVRTHARD], trusted_base=COMMON_TB, assumptions=[],
-        level_text="Theorems on M1's Reserve: refusal iff current + backlog + size exceeds the hard limit, refusal leaves the state unchanged, retry succeeds after the backlog drained, no refusal when the option is off. Server-level oracle: with the cache filled to the limit every write path (HTTP, BatchUpdateBlobs, ByteStream.Write, UpdateActionResult with inlined blobs, FetchBlob; both storage modes) answers 507 / RESOURCE_EXHAUSTED, stores and evicts nothing, reads keep working.",
+        level_text="Theorems on M1's Reserve: refusal iff current + backlog + size exceeds the hard limit, refusal leaves the state unchanged, retry succeeds after the backlog drained, no refusal when the option is off. Server-level oracle: with the cache filled to the limit every write path (HTTP, BatchUpdateBlobs, ByteStream.Write, UpdateActionResult with inlined blobs, FetchBlob; both storage modes) answers 507 / RESOURCE_EXHAUSTED, stores and evicts nothing, reads keep working. Also on M4/M5: a fetch of unknown size reserves the announced size first and is refused like any other (unknown_size_fetch_refused); under every interleaving the backlog counter equals the bytes of evicted-but-not-unlinked entries, each with its file (conc_backlog_exact, conc_admission_exact). Harness: remover held before each unlink (admission vs bytes measured on disk), every server read path through a back end at the limit, SpliceBlob, FetchBlob with mirrors.",
         level_note=NOTE + "the uint64 sum is modelled exactly.", technique=TECH),
     "C02": dict(
         lean="BR.Props.C02", runs=[BLOB, BLOBREAL, DISK, READTHROUGH, SLOWPATH, SRVREAD, SRVPOOL, SRVBATCH], trusted_base=COMMON_TB + [
             "zstd codecs (klauspost, libzstd) enter the theorems as a parameter satisfying Codec.Lawful; SHA-256 as an opaque function"],
         assumptions=["offset >= 0 (enforced by disk.get before the readers are called)"],
-        level_text="Theorems on M2 (casblob): for every conformant file (any chunk size, any frames decoding to the chunks) and every offset below the size, both readers return exactly data[offset:] (raw: the bytes; zstd: a stream decoding to them); the writer's output is conformant; readers are total.",
+        level_text="Theorems on M2 (casblob): for every conformant file (any chunk size, any frames decoding to the chunks) and every offset below the size, both readers return exactly data[offset:] (raw: the bytes; zstd: a stream decoding to them); the writer's output is conformant; readers are total. ByteStream.Read serves every in-range offset/limit (M10 sendLoop). Harness: every server read path x storage modes x zstd implementations, read-through at every offset, the slow path across storage modes, damaged entries, overlapping reads after a failed one.",
         level_note=NOTE + "codec laws are hypotheses (satisfied by a proved toy instance); the real codecs are exercised by the direct oracle only.", technique=TECH),
     "C20": dict(
         lean="BR.Props.C20", runs=[BLOB, BLOBREAL, GRPCPROXY, S3PROXY, HTTPPROXY, AZBLOB], trusted_base=COMMON_TB, assumptions=[],
-        level_text="Header encode/parse round trip and reader conformance theorems on M2; layout constants, file-name shapes and regexps regenerated from the source and compared by Bridge theorems; files from an independent encoder/reader in the harness; objects stored through the real S3 and HTTP back-end clients into in-process servers must appear under the published names for several prefix shapes and read back unchanged.",
+        level_text="Header encode/parse round trip and reader conformance theorems on M2; layout constants, file-name shapes and regexps regenerated from the source and compared by Bridge theorems; files from an independent encoder/reader in the harness; objects stored through the real S3 and HTTP back-end clients into in-process servers must appear under the published names for several prefix shapes and read back unchanged. Also the Azure client against an in-process container (doubled prefix pinned), the gRPC client's resource names with and without a stated size, every statement deriving an object name in the back-end clients pinned by the translator (key_sites_pinned), conformant files with streaming frames and windows up to 32 MiB.",
         level_note=NOTE + "published layout written once in Lean as the specification.", technique=TECH),
     "C01": dict(
         lean="BR.Props.C01", runs=[BLOB, BLOBREAL, DISK, SRVWRITE, SRVBATCH], trusted_base=COMMON_TB + ["SHA-256 as an opaque function H; zstd codec as a parameter"],
         assumptions=[],
-        level_text="Theorems on M2/M4: WriteAndClose / Put acknowledge iff the delivered bytes have the declared length and hash and the stream ended cleanly; a rejected upload leaves index and directory unchanged; per-path corollaries for the server front ends.",
+        level_text="Theorems on M2/M4: WriteAndClose / Put acknowledge iff the delivered bytes have the declared length and hash and the stream ended cleanly; a rejected upload leaves index and directory unchanged; per-path corollaries for the server front ends. Server oracles: 15 write paths x corruption kinds x sizes x both storage modes; BatchUpdateBlobs requests with several entries and repeated digests.",
         level_note=NOTE + "server paths are tied by the server-level correspondence runs.", technique=TECH),
     "C04": dict(
         lean="BR.Props.C04", runs=[DISK, F14, LOAD, SCHED], trusted_base=COMMON_TB, assumptions=["tempfile.Create returns a name not present in the directory (O_EXCL)"],
@@ -108,11 +108,11 @@ PROPS = {
     "C12": dict(
         lean="BR.Props.C12", runs=[DISK, READTHROUGH, GRPCPROXY, S3PROXY, HTTPPROXY, AZBLOB, SRVPROXYLIMIT, SRVWRITETHROUGH], trusted_base=COMMON_TB + ["transport code of the concrete back ends (net/http, grpc, minio, azure SDK) is not modelled"],
         assumptions=["the back end is trusted for content it completely delivers"],
-        level_text="Theorems on M4's proxy read-through: a hit carries exactly the back end's bytes with the announced size; every fault (error, not found, short/long stream, wrong or unknown size, oversize) yields a miss or an error, stores nothing and releases the reservation; each accepted upload is forwarded once.",
+        level_text="Theorems on M4's proxy read-through: a hit carries exactly the back end's bytes with the announced size; every fault (error, not found, short/long stream, wrong or unknown size, oversize) yields a miss or an error, stores nothing and releases the reservation; each accepted upload is forwarded once. Harness: grpc / s3 / http / azblob clients against in-process servers (published names, round trip, sizes stated or not), every front end behind the real http client with a slow back end (write-through survives the request), oversize and size-less back-end objects on every server read path.",
         level_note=NOTE + "partial: back-end transport libraries outside the model.", technique=TECH),
     "C18": dict(
         lean="BR.Props.C18", runs=[DISK, SRVLIMIT, SRVPROXYLIMIT], trusted_base=COMMON_TB, assumptions=[],
-        level_text="Theorems on M4: Put refuses sizes above max_blob_size with a client error and unchanged state, accepts the limit itself; nothing above max_proxy_blob_size is fetched, cached or reported present on the strength of the back end.",
+        level_text="Theorems on M4: Put refuses sizes above max_blob_size with a client error and unchanged state, accepts the limit itself; nothing above max_proxy_blob_size is fetched, cached or reported present on the strength of the back end. Server oracle: limit-1/limit/limit+1 on 14 write paths, compressible and not; oversize and size-less back-end objects on 7 read/existence paths (known finding F17).",
         level_note=NOTE + "handler-level guards tied by server correspondence runs.", technique=TECH),
     "C13": dict(
         lean="BR.Props.C13", runs=[AUTH], trusted_base=["crypto/tls, net/http, grpc-go and go-http-auth implement the handshake / header parsing the model takes as given"],
@@ -121,16 +121,16 @@ PROPS = {
         level_note="Lean 4 kernel; readOnlyMethods / health name / registered services regenerated from the source (Bridge.Auth); the correspondence is exhaustive, not sampled.", technique=TECH),
     "C06": dict(
         lean="BR.Props.C06", runs=[SRVACDEPS, FINDMISSING, FAILFAST, FAILFASTPARK], trusted_base=["protobuf decoding of stored ActionResult / Tree blobs is a parameter (treeOf)"], assumptions=[],
-        level_text="Theorems on M8: a hit implies every referenced blob (tree blobs, tree root/child files, non-inlined output files, stdout, stderr) is present; absence yields a miss, never an error or partial result; all present yields a hit. Server-level oracle over every subset of absent blobs; the decision compared with the model.",
+        level_text="Theorems on M8: a hit implies every referenced blob (tree blobs, tree root/child files, non-inlined output files, stdout, stderr) is present; absence yields a miss, never an error or partial result; all present yields a hit. Server-level oracle over every subset of absent blobs; the decision compared with the model. Fail-fast walk with the worker that reports the miss parked inside cancel().",
         level_note=NOTE + "the fail-fast presence check is C10's model; recency refresh of dependencies is checked at the disk level.", technique=TECH),
     "C11": dict(
         lean="BR.Props.C11", runs=[SRVAC, SRVACDEPS, SRVINLINE], trusted_base=["protobuf / protojson codecs (round-trip law assumed, real ones exercised by the harness)"], assumptions=[],
-        level_text="Theorems on M8's validator: each invalid class is rejected wherever it occurs, acceptance iff every component is well formed; validator compared with validate.ActionResult on generated messages; server oracle: rejected => nothing served, accepted => served equal modulo worker name, JSON = proto, latest wins.",
+        level_text="Theorems on M8's validator: each invalid class is rejected wherever it occurs, acceptance iff every component is well formed; validator compared with validate.ActionResult on generated messages; server oracle: rejected => nothing served, accepted => served equal modulo worker name, JSON = proto, latest wins. Read-side inlining (model M8b): contents preserved, 3 MiB budget kept, request honoured when it fits, otherwise by true digest with the bytes in the CAS; conditions and visit order of maybeInline regenerated from the source (Bridge.Inline); GetActionResult compared with the model on generated results around the budget.",
         level_note=NOTE + "the validator's verdicts are compared message by message.", technique=TECH),
     "C14": dict(
         lean="BR.Props.C14", runs=[BLOB, PARSERS, HANDLERS, BYTESTREAM, FDLEAK, UPLOADLEAK], trusted_base=COMMON_TB + ["third-party decoders, the Go runtime and grpc-go are outside the model"],
         assumptions=["memory exhaustion and real-time hangs cannot be exhibited by the model"],
-        level_text="Partial. Theorems: casblob readers total on every byte string, resource-name parsers total, validator and GetTree walk handle absent sub-messages, Write answers every message sequence. Harness: every handler called in-process under recover with absent sub-messages and ill-formed stored blobs; mutated stored files; goroutine/reservation leak oracle.",
+        level_text="Partial. Theorems: casblob readers total on every byte string, resource-name parsers total, validator and GetTree walk handle absent sub-messages, Write answers every message sequence. Harness: every handler called in-process under recover with absent sub-messages and ill-formed stored blobs; mutated stored files; goroutine/reservation leak oracle. Refused / rejected / aborted uploads on 12 paths and refused SpliceBlob: no handler goroutine, descriptor, reservation or temp file left; descriptor oracle for aborted downloads.",
         level_note=NOTE + "partial: goroutine life cycle, third-party panics and resource exhaustion are checked by oracle only.", technique=TECH),
     "C15": dict(
         lean="BR.Props.C15", runs=[SRVKEYS, PARSERS, DISK, LOAD], trusted_base=["SHA-256 as an opaque function with an explicit no-collision hypothesis"], assumptions=[],
@@ -138,11 +138,11 @@ PROPS = {
         level_note=NOTE + "no-collision hypothesis explicit.", technique=TECH),
     "C16": dict(
         lean="BR.Props.C16", runs=[BYTESTREAM, PARSERS, SRVBACKENDWRITE], trusted_base=["grpc-go stream delivery"], assumptions=[],
-        level_text="Theorems on M10: early return for existing blobs, failure for non-zero first offset / bad or empty name / over-limit size / more or fewer bytes than declared, success commits exactly the declared size, parsers accept every conformant name with any instance prefix and trailing metadata; the real Write compared with writeRPC on generated message sequences.",
+        level_text="Theorems on M10: early return for existing blobs, failure for non-zero first offset / bad or empty name / over-limit size / more or fewer bytes than declared, success commits exactly the declared size, parsers accept every conformant name with any instance prefix and trailing metadata; the real Write compared with writeRPC on generated message sequences. QueryWriteStatus complete iff present for both name spellings; Write/QueryWriteStatus of a blob only the back end holds (sizes reported or not).",
         level_note=NOTE + "the three-goroutine schedule is abstracted to the message sequence.", technique=TECH),
     "C10": dict(
         lean="BR.Props.C10", runs=[FINDMISSING, FAILFAST, FMQUEUE], trusted_base=COMMON_TB, assumptions=[],
-        level_text="Theorems on M7 for every batch size and list length: the answer is the request filtered by 'absent locally (or other size) and not vouched for by the back end (or too large for it)', in order with duplicates; present-throughout never reported, absent-throughout reported, empty blob never missing, worker write order irrelevant, fail-fast miss iff something is missing. The real FindMissingCasBlobs compared with the model on generated partitions with concurrent unrelated puts; the final select driven through its yield point.",
+        level_text="Theorems on M7 for every batch size and list length: the answer is the request filtered by 'absent locally (or other size) and not vouched for by the back end (or too large for it)', in order with duplicates; present-throughout never reported, absent-throughout reported, empty blob never missing, worker write order irrelevant, fail-fast miss iff something is missing. The real FindMissingCasBlobs compared with the model on generated partitions with concurrent unrelated puts; the final select driven through its yield point. The back end's answer carries the size it reports (none for size-less stores): it vouches only with a size that does not contradict the stated one (backend_vouches_iff). Stalled back end with pool and queue full.",
         level_note=NOTE + "the worker pool's scheduling is abstracted by the order-irrelevance theorem.", technique=TECH),
     "C19": dict(
         lean="BR.Props.C19", runs=[CONFIG], trusted_base=COMMON_TB + ["urfave/cli flag parsing, yaml.v3 decoding, net.SplitHostPort and url.Parse are modelled (typed values; address and scheme grammar re-implemented in Lean), not verified"], assumptions=["proxy URLs are drawn from a family on which url.Parse fails only for a missing scheme"],
@@ -158,7 +158,7 @@ PROPS = {
         level_note=NOTE + "partial: power-loss durability is outside the model; torn raw files are the recorded finding F16.", technique=TECH),
     "C07": dict(
         lean="BR.Props.C07", runs=[SCHED, F14, SLOWPATH, SRVPOOL, FAILFASTPARK], trusted_base=COMMON_TB + ["each index-lock region is taken as atomic and memory as touched only inside lock regions; an open file keeps its content after unlink; tempfile.Create never returns a name in use (O_EXCL): assumptions of model M5, not conclusions"], assumptions=["schedules are interleavings at the verif yield points; finer interleavings inside a lock region are excluded by the mutex"],
-        level_text="Theorems on M5 for every schedule of any number of uploads, reads, remover steps and file corruptions: the C03 index invariant holds after every step and exactly the uploads in flight hold reservations (so nothing stays reserved at quiescence); every read that returns data returns the complete bytes of one completed upload to the same key; the files on disk are exactly the files of the tracked entries plus the completed files of uploads that have not committed, with unique names (directory = index at quiescence). The real Put/Get/remover are driven along generated schedules through the yield points (a released segment must reach its next gate or finish) and compared with the model on read results, reservations, entry count and recency order; quiescence oracles for accounting and directory; thorough tier under the race detector.",
+        level_text="Theorems on M5 for every schedule of any number of uploads, reads, remover steps and file corruptions: the C03 index invariant holds after every step and exactly the uploads in flight hold reservations (so nothing stays reserved at quiescence); every read that returns data returns the complete bytes of one completed upload to the same key; the files on disk are exactly the files of the tracked entries plus the completed files of uploads that have not committed, with unique names (directory = index at quiescence). The real Put/Get/remover are driven along generated schedules through the yield points (a released segment must reach its next gate or finish) and compared with the model on read results, reservations, entry count and recency order; quiescence oracles for accounting and directory; thorough tier under the race detector. Further theorems: an indexed value is dropped only by Reserve/commit (pressure, overwrite) or by a reader that failed on that very file (acked_entry_kept, stale_reader_cannot_drop = finding F23). Server-level: overlapping reads after failed/limited/cancelled reads; slow path across storage modes.",
         level_note=NOTE + "partial: atomicity of lock regions and absence of data races are assumed by the model (race detector in the thorough tier).", technique=TECH),
 }
 
